@@ -9,7 +9,8 @@ from .core import derive
 
 
 def emit(obj):
-    sys.stdout.write(json.dumps(obj, sort_keys=True, default=_d) + "\n")
+    # (no sort_keys: the insertion order of mappings inside a case spec is part of the case)
+    sys.stdout.write(json.dumps(obj, default=_d) + "\n")
     sys.stdout.flush()
 
 
